@@ -84,6 +84,12 @@ class Variable:
         """
         x = data_mask[self.name]
         if is_numeric_dtype(x):
+            if self.reference is not None:
+                # The level would be dropped without notice, and the numbers taken as they are
+                raise ValueError(
+                    f"'{self.name}[{self.reference}]': the notation 'variable[level]' can only be "
+                    f"used with categorical variables, but '{self.name}' is numeric."
+                )
             self.kind = "numeric"
         elif is_string_dtype(x) or is_categorical_dtype(x):
             self.kind = "categoric"
